@@ -1,0 +1,63 @@
+//go:build verif
+
+package mfs
+
+import (
+	"context"
+
+	ipld "github.com/ipfs/go-ipld-format"
+)
+
+// Read-only accessors for the verification harness of property C19 (MFS tree / caching model).
+// They expose the two levels of a Directory's state -- the links of the underlying UnixFS
+// directory and the cache of live children -- without going through childUnsync / cacheSync,
+// i.e. without changing either level.
+
+// VerifEntry is one link of the underlying UnixFS directory together with the live child
+// cached under the same name (nil when the child is not cached).
+type VerifEntry struct {
+	Link   *ipld.Link
+	Cached FSNode
+}
+
+// VerifEntries returns the links of d.unixfsDir, each with the cached live child of that name,
+// and the names present in the cache that have no link in the UnixFS directory.
+func (d *Directory) VerifEntries(ctx context.Context) (entries []VerifEntry, cacheOnly []string, err error) {
+	d.lock.Lock()
+	defer d.lock.Unlock()
+
+	seen := make(map[string]bool)
+	err = d.unixfsDir.ForEachLink(ctx, func(l *ipld.Link) error {
+		cp := *l
+		seen[l.Name] = true
+		entries = append(entries, VerifEntry{Link: &cp, Cached: d.entriesCache[l.Name]})
+		return nil
+	})
+	if err != nil {
+		return nil, nil, err
+	}
+	for name := range d.entriesCache {
+		if !seen[name] {
+			cacheOnly = append(cacheOnly, name)
+		}
+	}
+	return entries, cacheOnly, nil
+}
+
+// VerifUnixfsNode returns the node of the underlying UnixFS directory as it is now, without
+// syncing the cache of live children into it first (GetNode does that).
+func (d *Directory) VerifUnixfsNode() (ipld.Node, error) {
+	d.lock.Lock()
+	defer d.lock.Unlock()
+	nd, err := d.unixfsDir.GetNode()
+	if err != nil {
+		return nil, err
+	}
+	return nd.Copy(), nil
+}
+
+// VerifName returns the name the inode was created with.
+func (d *Directory) VerifName() string { return d.name }
+
+// VerifName returns the name the inode was created with.
+func (fi *File) VerifName() string { return fi.name }
